@@ -1,15 +1,53 @@
 """Import of the system under test (ombott) from $OMBOTT_SRC (default /repo).
 
-There is no build step: the checks import the working tree directly, so every run "rebuilds" from it.
+There is no build step: the checks import the working tree directly, so every run "rebuilds" from it.  A meta-path
+finder serves the ombott package from $OMBOTT_SRC with a loader that caches compiled code objects by source hash, so
+that a fresh import (all module-level state rebuilt) costs milliseconds and never reads a stale byte-code file.
 """
+import hashlib
+import importlib
+import importlib.abc
+import importlib.machinery
+import importlib.util
 import os
 import sys
-import importlib
 
 SRC = os.environ.get('OMBOTT_SRC', '/repo')
 
 
+class _CachingLoader(importlib.machinery.SourceFileLoader):
+    _cache = {}
+
+    def get_code(self, fullname):
+        path = self.get_filename(fullname)
+        data = self.get_data(path)
+        key = (path, hashlib.sha1(data).digest())
+        code = self._cache.get(key)
+        if code is None:
+            code = self._cache[key] = compile(data, path, 'exec', dont_inherit=True)
+        return code
+
+
+class _Finder(importlib.abc.MetaPathFinder):
+    def find_spec(self, fullname, path=None, target=None):
+        if fullname != 'ombott' and not fullname.startswith('ombott.'):
+            return None
+        base = os.path.join(SRC, *fullname.split('.'))
+        if os.path.isdir(base):
+            file = os.path.join(base, '__init__.py')
+            if not os.path.exists(file):
+                return None
+            return importlib.util.spec_from_file_location(fullname, file, loader=_CachingLoader(fullname, file),
+                                                          submodule_search_locations=[base])
+        file = base + '.py'
+        if not os.path.exists(file):
+            return None
+        return importlib.util.spec_from_file_location(fullname, file, loader=_CachingLoader(fullname, file))
+
+
 def _ensure_path():
+    if not any(isinstance(f, _Finder) for f in sys.meta_path):
+        sys.meta_path.insert(0, _Finder())
     if not sys.path or sys.path[0] != SRC:
         while SRC in sys.path:
             sys.path.remove(SRC)
